@@ -21,6 +21,6 @@ YOUR TASK: produce up to THREE independent changes ("seeded defects") to the rep
 
 For each seed k = 1..3 deliver in {out}/seed<k>/:
   - patch.diff  : `git diff` of exactly that one change against the worktree's HEAD (apply-able with `git apply`);
-  - a demonstration: a Go test file (say where it must be placed, e.g. `types/zz_seed_test.go`, package name) or a small `main` program, which FAILS with the change applied and PASSES on the unchanged HEAD — run it both ways yourself and paste the two outputs into notes.md;
+  - a demonstration: Go test file(s) or a small `main` program stored under seed<k>/demo/ MIRRORING the repository path where each file must be placed (e.g. seed<k>/demo/types/zz_seed_test.go is copied to <worktree>/types/zz_seed_test.go), plus seed<k>/run.sh: a script taking the worktree path as $1 that runs the demonstration there (`cd "$1" && go test -vet=off -count=1 -run 'TestZzSeed…' ./types/`) and exits non-zero when it fails. The demonstration must FAIL with the change applied and PASS on the unchanged HEAD — run it both ways yourself and paste the two outputs into notes.md;
   - notes.md    : which clause of the property breaks, why the existing tests do not notice, what exactly is needed for it to manifest (inputs / sequence / timing), and the commands you ran.
 Keep the worktree clean between seeds (`git -C {wt} checkout -- . && git -C {wt} clean -fdq`) so that each patch is independent. Shell environment for every go command: `export GOFLAGS=-mod=mod GOPROXY=off GOSUMDB=off GOTOOLCHAIN=local` (no network; default go is 1.23). Do not commit anything. When done, reply with a short summary of the seeds (one paragraph each).""")
